@@ -14,7 +14,7 @@
   reproduced on /repo by the suite, monitor class `withdraw-unlocked-repeated`); what does hold is
   `c11_lock_bound_partial`; the full bound `c11_lock_bound` is proved for the patched variant.
 -/
-import SgeProofs.Lemmas.SubaccountBank
+import SgeProofs.Lemmas.SubaccountWager
 namespace Sge.Subaccount
 
 /-- C11.a `summary_nonneg`: in every reachable state none of Deposited / Spent / Withdrawn / Lost is negative. -/
@@ -205,83 +205,6 @@ theorem c11_transfers_to_owner_kinds (fixed : Bool) (bank0 : Nat → Int) (hb : 
   have hok := (run_inv (init_inv fixed bank0 hb) ops).subOK a sub h
   exact ⟨hok.toOwnerSplit, hok.wdSplit, hok.relNonneg, hok.wagNonneg, hok.profNonneg⟩
 
-theorem withdrawLockedAt_ok_bank {s s1 : State} {a owner : Nat} {d : Int}
-    (h : withdrawLockedAt s a owner d = (s1, .ok)) (hne : owner ≠ a) : s1.bank owner = s.bank owner + d := by
-  unfold withdrawLockedAt at h
-  split at h
-  · simp at h
-  · dsimp only at h
-    split at h
-    · simp at h
-    · split at h
-      · simp at h
-      · split at h
-        · simp at h
-        · rename_i bank' hsend
-          split at h
-          · simp at h
-          · simp only [Prod.mk.injEq, and_true] at h
-            subst h
-            have hb := send_apply hsend owner
-            simp only [hb, if_neg hne, if_true]
-            omega
-
-theorem wagerBet_ok_bank {s0 s1 : State} {owner a : Nat} {x : WagerExt}
-    (h : (wagerBet s0 s1 owner a x).2 = .ok) (hne : owner ≠ extAcct) :
-    (wagerBet s0 s1 owner a x).1.bank owner = s1.bank owner - x.charged := by
-  unfold wagerBet at h ⊢
-  by_cases c0 : (!x.wagerOk) = true
-  · rw [if_pos c0] at h; simp at h
-  · rw [if_neg c0] at h ⊢
-    cases hsend : send s1.bank owner extAcct x.charged with
-    | none => simp [hsend] at h
-    | some bank' =>
-      simp only [hsend] at h ⊢
-      cases hs : s1.subs a with
-      | none => simp [hs] at h
-      | some sub =>
-        have hb := send_apply hsend owner
-        simp only [hb, if_true, if_neg hne]
-        omega
-
-theorem wager_ok_spec {s : State} {owner : Nat} {main sub : Int} {x : WagerExt}
-    (hok : (wager s owner main sub x).2 = .ok) :
-    ∃ a s1, s.ownerMap owner = some a ∧ withdrawLockedAt s a owner sub = (s1, .ok) ∧
-      wager s owner main sub x = wagerBet s s1 owner a x := by
-  unfold wager at hok ⊢
-  by_cases c0 : (!s.wagerEnabled) = true
-  · rw [if_pos c0] at hok; simp at hok
-  · rw [if_neg c0] at hok ⊢
-    cases hown : s.ownerMap owner with
-    | none => simp [hown] at hok
-    | some a =>
-      simp only [hown] at hok ⊢
-      by_cases c1 : x.pre = 1
-      · rw [if_pos c1] at hok; simp at hok
-      · rw [if_neg c1] at hok ⊢
-        by_cases c2 : x.pre = 2
-        · rw [if_pos c2] at hok; simp at hok
-        · rw [if_neg c2] at hok ⊢
-          by_cases c3 : x.pre = 3
-          · rw [if_pos c3] at hok; simp at hok
-          · rw [if_neg c3] at hok ⊢
-            by_cases c4 : main + sub ≠ x.betAmount
-            · rw [if_pos c4] at hok; simp at hok
-            · rw [if_neg c4] at hok ⊢
-              by_cases c5 : x.pre = 5
-              · rw [if_pos c5] at hok; simp at hok
-              · rw [if_neg c5] at hok ⊢
-                by_cases c6 : s.bank owner < main
-                · rw [if_pos c6] at hok; simp at hok
-                · rw [if_neg c6] at hok ⊢
-                  cases hw : withdrawLockedAt s a owner sub with
-                  | mk s1 r =>
-                    simp only [hw] at hok ⊢
-                    cases r with
-                    | ok => exact ⟨a, s1, rfl, hw, rfl⟩
-                    | err e => simp at hok
-                    | panic => simp at hok
-
 /-- C11.g `locked_exit_only_staked`, wager step: a successful subaccount wager of a key-holding owner (not a custody module account) changes the
     owner's free balance by exactly (subaccount deduction − what the bet module charged). So the deduction is
     moved on into custody — the owner's free balance does not grow — iff the bet module charges at least the
@@ -290,11 +213,61 @@ theorem wager_ok_spec {s : State} {owner : Nat} {main sub : Int} {x : WagerExt}
 theorem c11_wager_owner_balance (s : State) (hinv : Inv s) (hop : OwnersPlain s) (owner : Nat) (main sub : Int) (x : WagerExt)
     (hne : owner ≠ extAcct) (hok : (wager s owner main sub x).2 = .ok) :
     (wager s owner main sub x).1.bank owner = s.bank owner + sub - x.charged := by
-  obtain ⟨a, s1, hown, hw, heq⟩ := wager_ok_spec hok
+  obtain ⟨a, s1, hown, hw, heq, _, _⟩ := wager_ok_spec hok
   obtain ⟨ho, ha, _⟩ := owner_plain hinv hop hown
   rw [heq] at hok ⊢
   have hne2 : owner ≠ a := by omega
   rw [wagerBet_ok_bank hok hne, withdrawLockedAt_ok_bank hw hne2]
+
+/-
+  Full statement wanted for every wager step (FALSE of the code as it is, see the counter-example below):
+  "when the bet module charges exactly the bet amount, a successful subaccount wager never increases the owner's
+   free balance".
+-/
+
+/-- 100 locked until time 50; at time 0 a ticket with main-account deduction −95 and subaccount deduction 100 for a
+    bet of 5 (the parts add up to the bet amount, which is all the payload validation checks) -/
+def negCex : List Op :=
+  [.fund 0 1000, .create 0 1 [(50, 100)],
+   .wager 1 (-95) 100 { pre := 0, betAmount := 5, wagerOk := true, charged := 5 }]
+
+/-- C11.g COUNTER-EXAMPLE for the code as it is: the bet module charges the full bet amount (5), yet 95 locked
+    tokens end up in the owner's free balance although nothing has been unlocked or released. -/
+theorem c11_wager_negative_deduct_counterexample :
+    (run (init false (fun _ => 0)) negCex).bank 1 = 95 ∧
+    ((run (init false (fun _ => 0)) negCex).subs (addrOf 1)).map
+      (fun sub => (sub.released, unlockedSum (run (init false (fun _ => 0)) negCex).now sub.locks, sub.wagered, sub.staked))
+      = some (0, 0, 100, 5) := by
+  constructor <;> decide
+
+/-- with repo_patches/sub_wager_nonneg_deduct.diff the same message is rejected by the payload validation -/
+theorem c11_wager_negative_deduct_cex_fixed :
+    (step (run (init2 false true (fun _ => 0)) (negCex.take 2))
+      (.wager 1 (-95) 100 { pre := 0, betAmount := 5, wagerOk := true, charged := 5 })).2 = .err .payload ∧
+    (run (init2 false true (fun _ => 0)) negCex).bank 1 = 0 := by
+  constructor <;> decide
+
+/-- C11.g `wager_no_gain` (patched payload validation, `fixedNeg = true`): if the bet module charges exactly the bet
+    amount, a successful subaccount wager never increases the owner's free balance — the whole subaccount
+    deduction is moved on into custody. -/
+theorem c11_wager_no_gain (s : State) (hinv : Inv s) (hop : OwnersPlain s) (owner : Nat) (main sub : Int) (x : WagerExt)
+    (hne : owner ≠ extAcct) (hfix : s.fixedNeg = true) (hch : x.charged = x.betAmount)
+    (hok : (wager s owner main sub x).2 = .ok) :
+    (wager s owner main sub x).1.bank owner ≤ s.bank owner := by
+  obtain ⟨_, _, _, _, _, hsum, hnn⟩ := wager_ok_spec hok
+  have := hnn hfix
+  rw [c11_wager_owner_balance s hinv hop owner main sub x hne hok]
+  omega
+
+/-- C11.g `wager_no_gain_partial` (code as it is): the same conclusion for tickets whose two deductions are
+    non-negative. Excluded: tickets with a negative main-account or subaccount deduction. -/
+theorem c11_wager_no_gain_partial (s : State) (hinv : Inv s) (hop : OwnersPlain s) (owner : Nat) (main sub : Int) (x : WagerExt)
+    (hne : owner ≠ extAcct) (hmain : 0 ≤ main) (hch : x.charged = x.betAmount)
+    (hok : (wager s owner main sub x).2 = .ok) :
+    (wager s owner main sub x).1.bank owner ≤ s.bank owner := by
+  obtain ⟨_, _, _, _, _, hsum, _⟩ := wager_ok_spec hok
+  rw [c11_wager_owner_balance s hinv hop owner main sub x hne hok]
+  omega
 
 /-- non-vacuity: a concrete history with real structure (two owners, top-up by a third party, reward grant, house
     deposit, settlement callbacks, wager) satisfies the hypotheses of the theorems above: every op respects
